@@ -65,9 +65,28 @@ pub fn digest_of(d: &str) -> Vec<u8> {
     }
 }
 
+/// digest map of a symbol: "<sym>" sha256 only; "s512:<sym>" sha512 only; "both:<sym>" both algorithms;
+/// "mix:<a>:<b>" sha256 of <a> with sha512 of <b>
 pub fn target(d: &str) -> in_toto::models::TargetDescription {
+    use in_toto::crypto::{HashAlgorithm, HashValue};
+    let long = |sym: &str| {
+        let mut v = digest_of(sym);
+        v.extend(digest_of(sym));
+        v
+    };
     let mut m = HashMap::new();
-    m.insert(in_toto::crypto::HashAlgorithm::Sha256, in_toto::crypto::HashValue::new(digest_of(d)));
+    if let Some(x) = d.strip_prefix("s512:") {
+        m.insert(HashAlgorithm::Sha512, HashValue::new(long(x)));
+    } else if let Some(x) = d.strip_prefix("both:") {
+        m.insert(HashAlgorithm::Sha256, HashValue::new(digest_of(x)));
+        m.insert(HashAlgorithm::Sha512, HashValue::new(long(x)));
+    } else if let Some(x) = d.strip_prefix("mix:") {
+        let (a, b) = x.split_once(':').expect("mix:a:b");
+        m.insert(HashAlgorithm::Sha256, HashValue::new(digest_of(a)));
+        m.insert(HashAlgorithm::Sha512, HashValue::new(long(b)));
+    } else {
+        m.insert(HashAlgorithm::Sha256, HashValue::new(digest_of(d)));
+    }
     m
 }
 
